@@ -257,7 +257,12 @@ class ParseFunc(_ast_util.NodeVisitor):
     def visit_FunctionDef(self, node):
         self.listener.funcname = node.name
 
-        argnames = [arg_id(arg) for arg in node.args.args]
+        # positional-only arguments are written as ordinary ones (the "/"
+        # marker is not kept, like the bare "*")
+        argnames = [
+            arg_id(arg)
+            for arg in getattr(node.args, "posonlyargs", []) + node.args.args
+        ]
         if node.args.vararg:
             argnames.append(node.args.vararg.arg)
 
